@@ -243,11 +243,16 @@ defvjp(
         "ij,...->ij...", anp.eye(x.shape[0], x.shape[1], k=offset), g
     ),
 )
-defvjp(
-    anp.full,
-    lambda ans, shape, fill_value, dtype=None: unbroadcast_f(fill_value, lambda g: g),
-    argnums=(1,),
-)
+
+
+def grad_full(ans, shape, fill_value, dtype=None):
+    if dtype is not None and not onp.issubdtype(onp.dtype(dtype), onp.inexact):
+        # a conversion to an integer or boolean type is piecewise constant
+        return lambda g: vspace(fill_value).zeros()
+    return unbroadcast_f(fill_value, lambda g: g)
+
+
+defvjp(anp.full, grad_full, argnums=(1,))
 defvjp(anp.triu, lambda ans, x, k=0: lambda g: anp.triu(g, k=k))
 defvjp(anp.tril, lambda ans, x, k=0: lambda g: anp.tril(g, k=k))
 defvjp(
